@@ -470,7 +470,11 @@ pub fn new_recorder() -> Rec {
     }))
 }
 
-fn arm(rec: &Rec, faults: &[usize]) {
+fn arm(rec: Option<&Rec>, faults: &[usize]) {
+    let rec = match rec {
+        Some(r) => r,
+        None => return,
+    };
     let mut r = rec.lock().unwrap();
     r.log.clear();
     r.fired.clear();
@@ -478,11 +482,11 @@ fn arm(rec: &Rec, faults: &[usize]) {
     r.enabled = true;
 }
 
-fn disarm(rec: &Rec) -> (Vec<Ev>, usize) {
+fn disarm(rec: Option<&Rec>) -> Option<Vec<Ev>> {
+    let rec = rec?;
     let mut r = rec.lock().unwrap();
     r.enabled = false;
-    let fired = r.fired.len();
-    (std::mem::take(&mut r.log), fired)
+    Some(std::mem::take(&mut r.log))
 }
 
 fn build_tree(program: &Expr, form: Form) -> Result<(Node, Option<String>), String> {
@@ -505,14 +509,20 @@ fn guard<F: FnOnce() -> String>(f: F) -> String {
     }
 }
 
-fn render_log(log: &[Ev]) -> String {
-    let v: Vec<String> = log.iter().map(|e| e.render()).collect();
-    format!("calls=[{}]", v.join(", "))
+fn render_log(log: Option<&[Ev]>) -> String {
+    match log {
+        Some(log) => {
+            let v: Vec<String> = log.iter().map(|e| e.render()).collect();
+            format!("calls=[{}]", v.join(", "))
+        },
+        // threaded configuration: user functions are pure sentinels, calls are not recorded
+        None => "calls=<unrecorded>".to_string(),
+    }
 }
 
 /// Applies a single-context operation to the real context. Returns (canonical result, call log).
 /// Multi-actor operations (Fork, Overwrite, Reset) are handled by the executor.
-pub fn apply_real(ctx: &mut Ctx, op: &Op, rec: &Rec) -> String {
+pub fn apply_real(ctx: &mut Ctx, op: &Op, rec: Option<&Rec>) -> String {
     match op {
         Op::SetValue { name, value } => guard(|| {
             match ctx.set_value(name.clone(), value.clone()) {
@@ -533,8 +543,8 @@ pub fn apply_real(ctx: &mut Ctx, op: &Op, rec: &Rec) -> String {
                 };
                 cr(&r)
             });
-            let (log, _) = disarm(rec);
-            format!("{} {}", r, render_log(&log))
+            let log = disarm(rec);
+            format!("{} {}", r, render_log(log.as_deref()))
         },
         Op::EvalImm { program, form, entry, faults } => {
             let (tree, src) = match build_tree(program, *form) {
@@ -549,8 +559,8 @@ pub fn apply_real(ctx: &mut Ctx, op: &Op, rec: &Rec) -> String {
                 };
                 cr(&r)
             });
-            let (log, _) = disarm(rec);
-            format!("{} {}", r, render_log(&log))
+            let log = disarm(rec);
+            format!("{} {}", r, render_log(log.as_deref()))
         },
         Op::GetValue { name } => guard(|| match ctx.get_value(name) {
             Some(v) => format!("Some({})", cv(v)),
@@ -582,7 +592,15 @@ pub fn apply_real(ctx: &mut Ctx, op: &Op, rec: &Rec) -> String {
             "()".to_string()
         }),
         Op::SetFunction { name, behaviour } => guard(|| {
-            let f = recording_function(name.clone(), static_behaviour(behaviour), rec.clone());
+            let f = match rec {
+                Some(rec) => {
+                    recording_function(name.clone(), static_behaviour(behaviour), rec.clone())
+                },
+                None => {
+                    let b = static_behaviour(behaviour);
+                    evalexpr::Function::new(move |arg: &V| Ok(sentinel(b, arg)))
+                },
+            };
             match ctx.set_function(name.clone(), f) {
                 Ok(()) => "Ok(())".to_string(),
                 Err(e) => format!("Err({})", crate::canon::ce(&e)),
@@ -591,8 +609,8 @@ pub fn apply_real(ctx: &mut Ctx, op: &Op, rec: &Rec) -> String {
         Op::CallFunction { name, arg, fault } => {
             arm(rec, if *fault { &[0] } else { &[] });
             let r = guard(|| cr(&ctx.call_function(name, arg)));
-            let (log, _) = disarm(rec);
-            format!("{} {}", r, render_log(&log))
+            let log = disarm(rec);
+            format!("{} {}", r, render_log(log.as_deref()))
         },
         Op::SetBuiltinsDisabled(b) => guard(|| match ctx.set_builtin_functions_disabled(*b) {
             Ok(()) => "Ok(())".to_string(),
@@ -639,7 +657,12 @@ fn set_model(m: &mut Model, name: &str, value: V) -> Result<(), E> {
 }
 
 /// Applies the operation to the model. `Err(())`: the reference declines (step skipped).
-pub fn apply_model(m: &mut Model, op: &Op, d: &mut Delegate) -> Result<String, ()> {
+pub fn apply_model(
+    m: &mut Model,
+    op: &Op,
+    d: &mut Delegate,
+    record_calls: bool,
+) -> Result<String, ()> {
     Ok(match op {
         Op::SetValue { name, value } => match set_model(m, name, value.clone()) {
             Ok(()) => "Ok(())".to_string(),
@@ -668,7 +691,11 @@ pub fn apply_model(m: &mut Model, op: &Op, d: &mut Delegate) -> Result<String, (
             if !immutable {
                 m.vars = env.vars;
             }
-            format!("{} {}", cr(&r), render_log(&env.log))
+            format!(
+                "{} {}",
+                cr(&r),
+                render_log(if record_calls { Some(&env.log) } else { None })
+            )
         },
         Op::GetValue { name } => match m.vars.get(name) {
             Some(v) => format!("Some({})", cv(v)),
@@ -714,13 +741,24 @@ pub fn apply_model(m: &mut Model, op: &Op, d: &mut Delegate) -> Result<String, (
                     vec![],
                 ),
             };
-            format!("{} {}", cr(&r), render_log(&log))
+            format!(
+                "{} {}",
+                cr(&r),
+                render_log(if record_calls { Some(&log) } else { None })
+            )
         },
         Op::SetBuiltinsDisabled(b) => {
             m.disabled = *b;
             "Ok(())".to_string()
         },
-        Op::OpAssignEquiv { .. } => "equivalent".to_string(),
+        Op::OpAssignEquiv { name, rhs, .. } => {
+            // precondition of the equivalence: the variable is bound (otherwise the two forms
+            // legitimately fail at different points) and the operand contains no assignment
+            if !m.vars.contains_key(name) || rhs.has_assignment() {
+                return Err(());
+            }
+            "equivalent".to_string()
+        },
         Op::Fork | Op::Overwrite { .. } | Op::Reset => "()".to_string(),
     })
 }
@@ -803,7 +841,7 @@ pub fn run_history(
             },
             op => {
                 let mut model = actors[a].model.clone();
-                let expected = match apply_model(&mut model, op, d) {
+                let expected = match apply_model(&mut model, op, d, true) {
                     Ok(e) => e,
                     Err(()) => {
                         stats.inc("steps_skipped_by_reference");
@@ -814,7 +852,7 @@ pub fn run_history(
                     stats.inc("parse_rejected");
                     continue;
                 }
-                let actual = apply_real(&mut actors[a].ctx, op, &rec);
+                let actual = apply_real(&mut actors[a].ctx, op, Some(&rec));
                 actors[a].model = model;
                 (expected, actual)
             },
@@ -1091,7 +1129,7 @@ pub fn gen_history(work: &mut Rng, sched: &mut Rng, conf: &mut Rng, d: &mut Dele
             Op::Reset => models[a] = Model::default(),
             other => {
                 let mut m = models[a].clone();
-                if apply_model(&mut m, other, d).is_ok() {
+                if apply_model(&mut m, other, d, true).is_ok() {
                     models[a] = m;
                 }
             },
@@ -1212,4 +1250,91 @@ fn shrink_val(v: &V) -> Vec<V> {
         },
         _ => vec![],
     }
+}
+
+// ------------------------------------------------------------------------------ threaded plan
+
+/// One step of an actor in the threaded configuration, with the model's prediction.
+#[derive(Clone, Debug)]
+pub struct PlannedStep {
+    /// index of the step in the history (for reporting)
+    pub index: usize,
+    pub op: Op,
+    /// expected canonical return value (calls unrecorded)
+    pub expected: String,
+    /// expected complete observable state of this actor after the step
+    pub obs: Observation,
+    /// for `Fork`: the actor that starts from the clone
+    pub fork_target: Option<usize>,
+}
+
+/// Per-actor plans of a history for the threaded configuration: every actor runs on its own
+/// simulated thread; a forked actor starts when its parent hands the clone over (thread
+/// migration). The predictions come from a model-only pass: actors are independent of each other
+/// except at fork points, so the predictions do not depend on the interleaving.
+/// User functions are pure sentinels here (no shared recorder between threads), `Overwrite`
+/// steps are dropped (they would couple two threads at a harness-chosen point).
+pub fn plan_threaded(h: &History, d: &mut Delegate) -> Vec<Vec<PlannedStep>> {
+    let mut models: Vec<Model> = vec![Model::default()];
+    let mut plans: Vec<Vec<PlannedStep>> = vec![Vec::new()];
+    for (i, step) in h.steps.iter().enumerate() {
+        let a = step.actor % models.len();
+        let op = match &step.op {
+            Op::Overwrite { .. } => continue,
+            Op::EvalMut { program, form, entry, .. } => Op::EvalMut {
+                program: program.clone(),
+                form: *form,
+                entry: *entry,
+                faults: vec![],
+            },
+            Op::EvalImm { program, form, entry, .. } => Op::EvalImm {
+                program: program.clone(),
+                form: *form,
+                entry: *entry,
+                faults: vec![],
+            },
+            Op::CallFunction { name, arg, .. } => Op::CallFunction {
+                name: name.clone(),
+                arg: arg.clone(),
+                fault: false,
+            },
+            other => other.clone(),
+        };
+        let mut fork_target = None;
+        let expected = match &op {
+            Op::Fork => {
+                if models.len() < MAX_ACTORS {
+                    let m = models[a].clone();
+                    models.push(m);
+                    plans.push(Vec::new());
+                    fork_target = Some(models.len() - 1);
+                    "()".to_string()
+                } else {
+                    continue;
+                }
+            },
+            Op::Reset => {
+                models[a] = Model::default();
+                "()".to_string()
+            },
+            other => {
+                let mut m = models[a].clone();
+                match apply_model(&mut m, other, d, false) {
+                    Ok(e) if !e.starts_with("PARSE-REJECTED") => {
+                        models[a] = m;
+                        e
+                    },
+                    _ => continue,
+                }
+            },
+        };
+        plans[a].push(PlannedStep {
+            index: i,
+            op,
+            expected,
+            obs: observe_model(&models[a]),
+            fork_target,
+        });
+    }
+    plans
 }
